@@ -165,7 +165,8 @@ func prepare[Type any](opts Opts[Type]) (
 		return nil, nil, nil, err
 	}
 
-	if !common.IsDistributionFilled(strategic) {
+	if !common.IsDistributionFilled(strategic) ||
+		!common.IsDistributionFilledFor(priorities, strategic) {
 		return nil, nil, nil, ErrHandlersQuantityTooSmall
 	}
 
